@@ -20,7 +20,7 @@ ID = "C20"
 LEVEL = "fault_enumeration"
 TECHNIQUE = "crash-point and torn-write enumeration with an uninterrupted-run differential at the HTTP boundary"
 RULE = ("histories of 3-8 stepping requests (run-step with one or several constants / points / {} / no body, run-steps(2), session-results) per instance, 1-3 "
-        "instances, scenarios with and without run-spec overrides, begin-session with and without settings, start in {0,1,2.5,8,9,98} (session clocks crossing 10 and 100), dt in {1, .5, .25}, plus sessions of 420 / 700 steps (without settings, with a setting early in the session, with begin settings); ALL crash points k=1..N; torn writes at truncation classes {0, 1, inside the outer JSON, "
+        "instances, scenarios with and without run-spec overrides, begin-session with and without settings, start in {0,1,2.5,8,9,98} (session clocks crossing 10 and 100), dt in {1, .5, .25}, plus sessions of 420 / 700 steps (without settings, with a setting early in the session, with begin settings); ALL crash points k=0..N (a session begun twice in a row included), every second one followed by a second crash two requests later; torn writes at truncation classes {0, 1, inside the outer JSON, "
         "inside the escaped inner JSON, len-1} via an open() failpoint during the write of request k and via post-hoc truncation; compress off "
         "(the compressed format's lossiness is C19's known finding) plus a lossless-shaped compressed subset; a subset repeated with a really "
         "killed child process. distinct_nontrivial = distinct (history, crash point) pairs in which a setting applied before the crash "
@@ -28,7 +28,7 @@ RULE = ("histories of 3-8 stepping requests (run-step with one or several consta
 ASSUMPTIONS = ["crash points lie between requests or inside the state write of a request; a crash inside a handler before the write equals 'request lost'",
                "in-process restart (discarding the server object) stands for process loss; a subset uses a real killed child to validate the shortcut",
                "responses compared as parsed JSON, numeric keys as floats"]
-REQUIRED = {"crash_points": 150, "post_crash_responses_compared": 1000, "torn_write_cases": 40, "servers_started_on_damaged_dir": 40}
+REQUIRED = {"second_crashes": 40, "crash_points": 150, "post_crash_responses_compared": 1000, "torn_write_cases": 40, "servers_started_on_damaged_dir": 40}
 BUDGET_S = {"quick": 115, "thorough": 1800}
 TRUNC = ["0", "1", "outer", "inner", "len-1"]
 
@@ -90,7 +90,7 @@ def make_history(rng, compress):
             body = {"scenario_managers": [MG], "scenarios": [rng.choice([SC, "alt"])], "equations": list(EQS)}
             if rng.random() < 0.5:
                 body["settings"] = {MG: {body["scenarios"][0]: {"constants": {"rate": 0.7}}}}
-            reqs.insert(rng.randint(2, n - 2), ("rebegin", body))
+            reqs.insert(rng.choice([0, 0, rng.randint(1, n - 2), rng.randint(2, n - 2)]), ("rebegin", body))      # also straight after the first begin-session
         elif r < 0.5:
             # the rest of the session streamed (stream-steps runs to the stop time), followed by 1-2 more requests
             reqs.insert(rng.randint(max(1, n - 3), n - 1), ("stream", {"settings": rng.choice([{}, {MG: {SC: {"constants": {"rate": 0.4}}}}])}))
@@ -219,8 +219,8 @@ def run_crash(case, counters):
         if m:
             return dict(kind="equation-missing", run="uninterrupted", request=order[n], missing=m), nts
     # every crash point after the first stepping request of every instance
-    first_ok = max(min(n for n, (i, j) in enumerate(order) if i == ii and hists[ii]["reqs"][j][0] in ("step", "steps")) for ii in range(len(hists))) + 1 \
-        if all(any(r[0] in ("step", "steps") for r in h["reqs"]) for h in hists) else len(order)
+    # every crash point from k=0 on: since begin-session externalises the session (fix 5485807) an instance is externalised from the start
+    first_ok = 0
     for k in range(first_ok, len(order) + 1):
         tmp = tempfile.mkdtemp(prefix="c20_", dir=".")
         A = open_server(tmp, hists[0], case["compress"])
@@ -237,7 +237,17 @@ def run_crash(case, counters):
                 return dict(kind="restart-failed", crash_point=k, error="%s: %s" % (type(e).__name__, str(e)[:200])), nts
             counters["crash_points"] = counters.get("crash_points", 0) + 1
             cB = B.test_client()
+            # every second crash point is followed by a SECOND crash two requests later (the recovered server has saved state of its own by then)
+            k2 = k + 2 if (k % 2 == 0 and k + 2 < len(order)) else None
             for n in range(k, len(order)):
+                if n == k2:
+                    srv.destroy_server(B)
+                    try:
+                        B = open_server(tmp, hists[0], case["compress"])
+                    except Exception as e:
+                        return dict(kind="restart-failed", crash_point=k, second_crash_point=k2, error="%s: %s" % (type(e).__name__, str(e)[:200])), nts
+                    cB = B.test_client()
+                    counters["second_crashes"] = counters.get("second_crashes", 0) + 1
                 i, j = order[n]
                 got = send(cB, ids[i], hists[i]["reqs"][j])
                 want = base[n]
@@ -248,7 +258,7 @@ def run_crash(case, counters):
                 a = json.dumps(canon(got[1]), sort_keys=True).replace(ids[i], "<ID>")
                 b = json.dumps(canon(want[1]), sort_keys=True).replace("<x>", "<ID>")
                 if got[0] != want[0] or a != b.replace(idsU[i], "<ID>"):
-                    return dict(kind="differs-after-restart", crash_point=k, request_index=n, instance=i, request=hists[i]["reqs"][j], got=got, uninterrupted=want,
+                    return dict(kind="differs-after-restart", crash_point=k, second_crash_point=k2 if (k2 is not None and n >= k2) else None, request_index=n, instance=i, request=hists[i]["reqs"][j], got=got, uninterrupted=want,
                                 after_rebegin=after_rebegin_with_settings(hists[i], j),
                                 earlier_requests=[hists[i]["reqs"][jj] for (ii, jj) in order[:k] if ii == i], run=dict(start=hists[0]["start"], dt=hists[0]["dt"]),
                                 scenario=hists[i].get("scen"), begin_settings=hists[i].get("begin")), nts
